@@ -36,8 +36,9 @@ ASSUMPTIONS = [
 ]
 
 ALPHA = "a \t'\"\\-"
-TOKCHARS = ["a", "b", " ", "\t", "\n", "'", '"', "\\", "-", "=", "é", "語"]
-SEPS = [" ", "  ", "\t", " \t ", "\n", " \n"]
+TOKCHARS = ["a", "b", " ", "\t", "\n", "'", '"', "\\", "-", "=", "é", "語", "\x0c", "\xa0"]
+SEPS = [" ", "  ", "\t", " \t ", "\n", " \n", "\r", "\r\n", "\x0b", "\x0c", "\x1c", "\x1f", "\x85", "\xa0", "\u2003", "\u3000", "\x0c ", "\xa0\t"]
+WS_ALPHA = ["a", "b", " ", "\x0c", "\xa0", "\r", "\u2003", "\x1d", "'"]
 
 
 class StepBudgetExceeded(BaseException):
@@ -176,11 +177,11 @@ HOSTILE = [
 def plan(tier, seed):
     if tier == "quick":
         return [{"part": "strings", "maxlen": 5, "slice": [i, 2]} for i in range(2)] + [{"part": "tokens", "n": 10000} for _ in range(2)] + [
-            {"part": "equiv", "n": 4000}, {"part": "hostile", "sizes": [200, 400, 1500]}]
+            {"part": "equiv", "n": 4000}, {"part": "hostile", "sizes": [200, 400, 1500]}, {"part": "ws", "maxlen": 4}]
     specs = [{"part": "strings", "maxlen": 7, "first": c} for c in ALPHA] + [{"part": "strings", "maxlen": 0}]
     specs += [{"part": "tokens", "n": 125000} for _ in range(8)]
     specs += [{"part": "equiv", "n": 25000} for _ in range(4)]
-    specs += [{"part": "hostile", "sizes": [200, 900, 1500, 4000]}]
+    specs += [{"part": "hostile", "sizes": [200, 900, 1500, 4000]}, {"part": "ws", "maxlen": 5}]
     return specs
 
 
@@ -225,6 +226,12 @@ def run(sh, spec):
                     sh.count("hostile_strings")
         elif part == "equiv":
             run_equiv(sh, mon, spec["n"])
+        elif part == "ws":
+            # every kind of whitespace (str.isspace) separates tokens
+            for n in range(0, spec["maxlen"] + 1):
+                for t in itertools.product(WS_ALPHA, repeat=n):
+                    check_string(sh, mon, StringArgs, "".join(t))
+                    sh.count("whitespace_strings")
         sh.count("tokenizer_steps", mon.total)
         sh.note("max_steps_per_char", mon.max_ratio)
     finally:
